@@ -221,7 +221,14 @@ for _k in ('list', 'sequence'):
 def _ss_state(sort, mapping):
     def hook(E, env):
         cls = E.lookup_qual(IN)
-        me = E.alloc(HObj(cls, {'sort': VC(sort), 'mapping': VC(1) if mapping else NONE}, name='self', lazy=True))
+        # the sort option reaches sort_sequence in one of two ways (both verified: a fork): as the tag's own ``sort``
+        # attribute (parameter left at None), or as the explicit ``sort`` argument (the per-rendering value of
+        # sort_expr), in which case the attribute holds something else that must not be used
+        if 'sort' in [a.arg for a in env.fn.node.args.args] and E.decide(2, 'sort option passed as argument') == 1:
+            me = E.alloc(HObj(cls, {'sort': VC('not_this_key/desc'), 'mapping': VC(1) if mapping else NONE}, name='self', lazy=True))
+            env.locals['sort'] = VC(sort)
+        else:
+            me = E.alloc(HObj(cls, {'sort': VC(sort), 'mapping': VC(1) if mapping else NONE}, name='self', lazy=True))
         env.locals['self'] = me
         sq = VSeq('S0', z3.Int('len_S0'))
         E.assume(sq.length >= 0)
